@@ -59,6 +59,7 @@ def run(ctx):
         ("R11.b", "observers whose update reads another observer acquired it before subscribing"),
         ("R11.c", "FeatureObserverType registry total and name-consistent"),
         ("R11.d", "feature observers never use Operation.machine_id (raises for flexible operations)"),
+        ("R11.e", "np.array over one row per job / per machine is guarded by a row-length condition on that same table (constructible for every valid instance)"),
     ):
         chk.rule(rid, txt)
     comp = repo.find_class("CompositeFeatureObserver")
@@ -220,6 +221,95 @@ def run(ctx):
                         )
     if not any(i["rule"] == "R11.d" for i in chk.instances):
         chk.ok("R11.d", "feature observers", "", f"{n_acc} .machine_id reads, none on an Operation")
+
+    # ---------------------------------------------------------------- R11.e
+    n_arr = _rectangular_arrays(ctx, lc, fo)
+    chk.floor("R11.e", n_arr, 1, "np.array constructions over ragged instance tables")
+
+
+RAGGED_TABLES = ("operations_by_machine", "jobs")
+
+
+def _rectangular_arrays(ctx, lc, fo):
+    """R11.e - ``np.array`` of a nested comprehension over a table whose rows
+    differ in length (instance.jobs, instance.operations_by_machine) raises
+    ValueError unless the rows are equally long: the construction must be
+    guarded by a condition on the row lengths of *that* table."""
+    chk, repo = ctx.chk, ctx.repo
+    n_sites = 0
+    for c in repo.subclasses(fo.qualname):
+        for m in list(c.methods.values()):
+            if m.cls is not c:
+                continue
+            for n in own_nodes(m.node):
+                if not (isinstance(n, ast.Call) and (dotted(n.func) or "").split(".")[-1] in ("array", "asarray") and n.args):
+                    continue
+                x = ctx.norm.xexpr(m, n.args[0])
+                if not (isinstance(x, ast.ListComp) and len(x.generators) == 1 and isinstance(x.elt, (ast.ListComp, ast.List))):
+                    continue
+                it = ctx.norm.xtext(m, x.generators[0].iter)
+                table = next((t for t in RAGGED_TABLES if it.endswith("." + t) or it == t), None)
+                if table is None:
+                    continue
+                # the inner rows must be the rows of the table (one entry per element)
+                if isinstance(x.elt, ast.ListComp) and ast.unparse(x.elt.generators[0].iter) != ast.unparse(x.generators[0].target):
+                    continue
+                n_sites += 1
+                guards = _guards_of(ctx, lc, c, m, n)
+                texts = [g for g in guards]
+                ok = any(table in g and "len(" in g for g in texts)
+                if ok:
+                    chk.ok("R11.e", m.qualname, m.loc(n), f"np.array over {table} guarded by a row-length condition on {table}")
+                else:
+                    shown = "; ".join(t[:90] for t in texts) or "no guard"
+                    chk.violation(
+                        "R11.e", m, n,
+                        f"`np.array` is built from one row per entry of `{table}`, whose rows differ in length in general, and "
+                        f"the only guard is `{shown}`, which says nothing about the row lengths of `{table}`: for a valid "
+                        "instance with unequal rows numpy raises ValueError (inhomogeneous shape) and the observer cannot "
+                        "be constructed / updated",
+                        loc=m.loc(n),
+                    )
+    return n_sites
+
+
+def _guards_of(ctx, lc, cls, m, node, _depth=0):
+    """Alias- and flag-expanded texts of the conditions under which ``node``
+    runs: enclosing ifs in ``m`` and, for a method with a single call site in
+    the class, the conditions enclosing that call."""
+    out = []
+    cur = m.module.parents.get(node)
+    child = node
+    while cur is not None and cur is not m.node:
+        if isinstance(cur, ast.If) and child in cur.body:
+            out.append(_expand_flags(ctx, lc, cls, m, cur.test))
+        elif isinstance(cur, ast.If) and child in cur.orelse:
+            # else-branch of an if/elif chain: nothing positive is known
+            pass
+        elif isinstance(cur, ast.match_case) and cur.guard is not None:
+            out.append(_expand_flags(ctx, lc, cls, m, cur.guard))
+        child, cur = cur, m.module.parents.get(cur)
+    if _depth < 2 and m.name != "__init__":
+        sites = []
+        for g in cls.methods.values():
+            for x in own_nodes(g.node):
+                if isinstance(x, ast.Call) and isinstance(x.func, ast.Attribute) and x.func.attr == m.name and isinstance(x.func.value, ast.Name) and x.func.value.id == "self":
+                    sites.append((g, x))
+        if len(sites) == 1:
+            out += _guards_of(ctx, lc, cls, sites[0][0], sites[0][1], _depth + 1)
+    return out
+
+
+def _expand_flags(ctx, lc, cls, m, test):
+    """Text of ``test`` with ``self.<flag>`` replaced by the (single) expression
+    assigned to that attribute in the class, itself alias-expanded."""
+    txt = ctx.norm.xtext(m, test)
+    for x in ast.walk(test):
+        if isinstance(x, ast.Attribute) and isinstance(x.value, ast.Name) and x.value.id == "self":
+            srcs = [(f, v) for f, v in lc.attr_sources(cls, x.attr) if v is not None]
+            if len(srcs) == 1:
+                txt = txt.replace(f"self.{x.attr}", "(" + ctx.norm.xtext(srcs[0][0], srcs[0][1]) + ")")
+    return txt
 
 
 def _collects_features(ctx, m, value):
